@@ -44,7 +44,13 @@ func NativeToObject(val any) Object {
 	case reflect.Struct:
 		return nativeStructToObject(val)
 	case reflect.Slice:
-		return nativeSliceToArrayObject(convertToInterfaceSlice(val))
+		arr := nativeSliceToArrayObject(convertToInterfaceSlice(val))
+
+		if arr == nil {
+			return nil
+		}
+
+		return arr
 	case reflect.Map:
 		return nativeMapToObject(val)
 	case reflect.Pointer:
@@ -67,7 +73,14 @@ func nativeMapToObject(val any) Object {
 	valValue := reflect.ValueOf(val)
 
 	for _, key := range valValue.MapKeys() {
-		obj.Pairs[key.String()] = NativeToObject(valValue.MapIndex(key).Interface())
+		pair := NativeToObject(valValue.MapIndex(key).Interface())
+
+		// value of unsupported type makes the whole map unsupported
+		if pair == nil {
+			return nil
+		}
+
+		obj.Pairs[key.String()] = pair
 	}
 
 	return obj
@@ -103,7 +116,14 @@ func nativeStructToObject(val any) Object {
 
 		fieldVal := reflect.ValueOf(val).Field(i).Interface()
 
-		obj.Pairs[field.Name] = NativeToObject(fieldVal)
+		pair := NativeToObject(fieldVal)
+
+		// field of unsupported type makes the whole struct unsupported
+		if pair == nil {
+			return nil
+		}
+
+		obj.Pairs[field.Name] = pair
 	}
 
 	return obj
@@ -113,7 +133,14 @@ func nativeSliceToArrayObject(slice []any) *Array {
 	arr := &Array{}
 
 	for _, val := range slice {
-		arr.Elements = append(arr.Elements, NativeToObject(val))
+		elem := NativeToObject(val)
+
+		// element of unsupported type makes the whole slice unsupported
+		if elem == nil {
+			return nil
+		}
+
+		arr.Elements = append(arr.Elements, elem)
 	}
 
 	return arr
